@@ -12,5 +12,6 @@ import (
 	_ "verif/mc/props/c15"
 	_ "verif/mc/props/c16"
 	_ "verif/mc/props/c18"
+	_ "verif/mc/props/c19"
 	_ "verif/mc/props/c20"
 )
